@@ -434,7 +434,14 @@ def rsel_shutdown_is_a_select_branch(ctx):
     shutdown_is_a_select_branch(ctx, "C09.SEL")
 
 
-RULES = [rbuilder_client_settings_survive, rpure_refused_insert_changes_nothing, rsel_shutdown_is_a_select_branch, r9_taken_callers_are_answered, r1_cause_before_close, r2_no_unchecked_arith_on_peer_numbers, r3_errors_reach_watcher, r4_frontend_mapping, r5_read_error, r6_no_relock, r7_manager_not_cleared_wholesale, r8_no_panicky_text_surgery, rcancel_receive_is_cancel_safe]
+
+def rloop_client_tasks_keep_polling(ctx):
+    """the client's background loops suspend only at vetted points"""
+    from .common import client_loops_suspend_only_where_vetted
+    client_loops_suspend_only_where_vetted(ctx, "C09.LOOP")
+
+
+RULES = [rloop_client_tasks_keep_polling, rbuilder_client_settings_survive, rpure_refused_insert_changes_nothing, rsel_shutdown_is_a_select_branch, r9_taken_callers_are_answered, r1_cause_before_close, r2_no_unchecked_arith_on_peer_numbers, r3_errors_reach_watcher, r4_frontend_mapping, r5_read_error, r6_no_relock, r7_manager_not_cleared_wholesale, r8_no_panicky_text_surgery, rcancel_receive_is_cancel_safe]
 
 LEVEL_TEXT = (
     "Structural necessary conditions of clean failure handling decided from the type-checked program: the happens-before "
